@@ -12,7 +12,7 @@ Chk(name, cond) == IF cond THEN TRUE ELSE PrintT(<<"FAILED", name, l>>) /\ FALSE
 Frozen == UNCHANGED <<queue, g, tree, cur, lastE, todo, iters, outcome, pc, reop>>
 
 T_KSetup == /\ Ev.ev = "Setup" /\ scn' = ScnOf(Ev)
-            /\ kq' = [k |-> Ev.k, sim |-> Ev.sim, alg |-> Ev.kalg] /\ accepted' = <<>> /\ remaining' = {} /\ kdone' = FALSE
+            /\ kq' = [k |-> Ev.k, sim |-> Ev.sim, alg |-> Ev.kalg, term |-> Ev.term] /\ accepted' = <<>> /\ remaining' = {} /\ kdone' = FALSE
             /\ Frozen
 Reachable == DistFrom(scn.src)[scn.dst] < Inf
 RouteOfEv(r) == [i \in DOMAIN r |-> [e |-> r[i].e, st |-> r[i].st, acc |-> r[i].acc, trv |-> r[i].trv]]
@@ -47,7 +47,7 @@ T_KResult == /\ Ev.ev = "KResult" /\ Enforce("C13") /\ UNCHANGED <<scn, kq, rema
                      /\ FALSE
 TInit == /\ l = 1 /\ scn = Idle /\ queue = <<>> /\ g = <<>> /\ tree = <<>> /\ cur = 0 /\ lastE = 0 /\ todo = {} /\ iters = 0
          /\ outcome = "run" /\ pc = "idle" /\ reop = FALSE
-         /\ kq = [k |-> 1, sim |-> [type |-> "accept_all", p |-> 0], alg |-> "svp"] /\ accepted = <<>> /\ remaining = {} /\ kdone = FALSE
+         /\ kq = [k |-> 1, sim |-> [type |-> "accept_all", p |-> 0], alg |-> "svp", term |-> [type |-> "exact", n |-> 0]] /\ accepted = <<>> /\ remaining = {} /\ kdone = FALSE
 TNext == l <= Len(Rec) /\ l' = l + 1 /\ (T_KSetup \/ T_KResult \/ T_KResultRoutesOnly)
 TSpec == TInit /\ [][TNext]_tvars
 Track == TrackPos(l)
